@@ -230,7 +230,11 @@ func RenderYAML(p *Program) string {
 			}
 		case "foreach":
 			w.line(2, "kind: foreach")
-			w.line(2, "workflow: "+q(s.Workflow))
+			if s.WorkflowSpelling != "" {
+				w.line(2, "workflow: "+q(s.WorkflowSpelling))
+			} else {
+				w.line(2, "workflow: "+q(s.Workflow))
+			}
 			if s.Items != nil {
 				w.emitKV(2, "items", s.Items)
 			}
